@@ -296,4 +296,21 @@ theorem countMerged_spec {layers : List Map} (hs : ∀ m ∈ layers, Sorted m) (
   rw [R.prefixCount_spec hf]
   simp [ordered, live, List.filter_reverse]
 
+/-- the complete `List` answer over the merged view. -/
+theorem listMerged_spec {layers : List Map} (hs : ∀ m ∈ layers, Sorted m) (h2 : 2 ≤ layers.length)
+    (pfx key : Bytes) (count dir : Nat) (hq : prefixUpper pfx ≠ some emptyValue) :
+    listMerged layers pfx key count dir
+      = some (listSpec (fun rev => ordered rev (withPrefix (mergeMaps layers) pfx)) key count dir) := by
+  unfold listMerged
+  apply list_spec_of_cursors (inv := MInv) (rest := MIter.rest)
+  · intro rev
+    have R := mergedRangeCursor hs h2 pfx none rev
+    rw [mergedAll_prefix hs pfx rev hq] at R
+    exact R
+  · intro rev
+    rw [length_ordered]
+    have := withPrefix_length_le (mergeMaps layers) pfx
+    have := length_mergeMaps_le layers
+    omega
+
 end C07
